@@ -11,6 +11,7 @@ package progen
 
 func init() {
 	register("struct", featDef{
+		sinks:       `@T1{}`,
 		provNotMain: true,
 		prov: `
 type @T1 struct {
@@ -39,6 +40,8 @@ emit(sprint("struct2 ", w.@M1(), " ", len(w.@F2)))
 	})
 
 	register("embed", featDef{
+		sinks:       `@T1{}, @T2{}`,
+		useSinks:    `@T3{}`,
 		provNotMain: true,
 		tags:        []string{"embedding"},
 		prov: `
@@ -74,6 +77,7 @@ emit(sprint("embed2 ", u.@M1(), " ", u.@F3, " ", u.@T2.@F2, " ", u.@T2.@T1.@F1))
 	})
 
 	register("embedalias", featDef{
+		sinks:       `@T1{}, @T3{}, @T4[int]{}, @T6{}`,
 		provNotMain: true,
 		tags:        []string{"embedding", "alias"},
 		prov: `
@@ -116,6 +120,7 @@ emit(sprint("embedalias3 ", c.@M1()))
 	})
 
 	register("generic", featDef{
+		sinks:       `@T1[string, int]{}, @T2(0)`,
 		provNotMain: true,
 		tags:        []string{"generics"},
 		prov: `
@@ -178,6 +183,7 @@ emit(sprint("generic3 ", len(f), " ", f[0].n))
 	})
 
 	register("iface", featDef{
+		sinks:       `@t1{}, &@T2{}`,
 		provNotMain: true,
 		tags:        []string{"interfaces"},
 		prov: `
@@ -219,6 +225,7 @@ emit(sprint("iface2 ", sink.@M1()))
 	})
 
 	register("methodval", featDef{
+		sinks:       `@T1{}`,
 		provNotMain: true,
 		prov: `
 type @T1 struct{ @F1 int }
@@ -284,6 +291,7 @@ emit("closure2 " + @Q@V1("a") + @Q@V1("b"))
 	})
 
 	register("typeswitch", featDef{
+		sinks:       `@T1{}, @T2{}, @t4{}`,
 		provNotMain: true,
 		prov: `
 type @T1 struct{ @F1 int }
@@ -394,6 +402,8 @@ for i := 0; i < 3; i++ {
 	})
 
 	register("conv", featDef{
+		sinks:       `@T1{}`,
+		useSinks:    `@T2{}, @T3{}`,
 		provNotMain: true,
 		tags:        []string{"structconv"},
 		prov: `
@@ -454,6 +464,7 @@ emit(sprint("conv3 ", mine.@F1))
 	})
 
 	register("anon", featDef{
+		sinks: `@V1, @V2, @V3`,
 		prov: `
 var @V1 = struct {
 	@F1 int
@@ -485,6 +496,7 @@ emit(sprint("anon3 ", loc.@F1, " ", loc.in.deep))
 	})
 
 	register("consts", featDef{
+		sinks:       `@C1, @T2{}, @T3{}`,
 		provNotMain: true,
 		prov: `
 type @T1 uint8
@@ -608,6 +620,7 @@ for n := argInt(args, 0, 0); n < argInt(args, 0, 0)+4; n++ {
 	})
 
 	register("panics", featDef{
+		sinks:       `@T1{}`,
 		provNotMain: true,
 		prov: `
 type @T1 struct{ @F1 string }
@@ -663,6 +676,7 @@ func() {
 	})
 
 	register("goroutines", featDef{
+		sinks: `&@T1{}`,
 		prov: `
 type @T1 struct {
 	@f1 sync.Mutex
@@ -719,6 +733,7 @@ emit(sprint("goroutines2 ", got))
 	})
 
 	register("functypes", featDef{
+		sinks:       `@T1(nil), @T2{}, @T3{}`,
 		provNotMain: true,
 		prov: `
 type @T1 func(int, ...string) string
@@ -759,6 +774,7 @@ emit(sprint("functypes2 ", @Q@N2(m), " ", m["a"], " ", @Q@T3{f, @Q@N1("q")}.@M3(
 	})
 
 	register("embediface", featDef{
+		sinks:       `@T1{}, @t2(0), @T3{}`,
 		provNotMain: true,
 		tags:        []string{"embedding", "interfaces"},
 		prov: `
@@ -797,6 +813,7 @@ emit(sprint("embediface3 ", isI2))
 	})
 
 	register("shadow", featDef{
+		sinks: `@T1{}`,
 		prov: `
 type @T1 struct{ @F1 int }
 
@@ -828,6 +845,7 @@ emit(sprint("shadow ", @Q@N1(argInt(args, 0, 5)), " ", @Q@N2(), " ", @Q@T1{@F1: 
 	})
 
 	register("sortmaps", featDef{
+		sinks:       `@T1{}, @T2{}`,
 		provNotMain: true,
 		prov: `
 type @T1 struct {
@@ -874,6 +892,7 @@ emit("sortmaps " + strings.Join(parts, " "))
 	})
 
 	register("recursive", featDef{
+		sinks:       `@T1[int]{}, @T2{}`,
 		provNotMain: true,
 		tags:        []string{"generics"},
 		prov: `
@@ -936,6 +955,7 @@ emit(sprint("recursive2 ", li.@F1+li.@F2.@F1))
 	})
 
 	register("genericmethods", featDef{
+		sinks:       `@T1[int]{}, @T2[string]{}`,
 		provNotMain: true,
 		tags:        []string{"generics", "embedding"},
 		prov: `
@@ -982,6 +1002,8 @@ emit(sprint("genericmethods2 ", s.@M2("k"), " ", s.@M1()))
 	})
 
 	register("unexportedclash", featDef{
+		sinks:       `@T1{}`,
+		useSinks:    `@T2{}`,
 		provNotMain: true,
 		prov: `
 // Same unexported field and method names as the user's own type.
@@ -1055,6 +1077,7 @@ emit("ldflags " + @Q@N1() + " " + strconv.Itoa(len(@Q@V1)))
 	})
 
 	register("linkname", featDef{
+		sinks:       `@T1{}`,
 		needs:       []string{"linkname"},
 		tags:        []string{"linkname"},
 		provNotMain: true,
@@ -1100,6 +1123,7 @@ emit(sprint("linkname ", @n2(argInt(args, 0, 2)), " ", @n3(r), " ", @n4(&r, "+x"
 	})
 
 	register("asm", featDef{
+		sinks:       `@T1{}`,
 		needs:       []string{"asm"},
 		tags:        []string{"asm"},
 		provNotMain: true,
@@ -1175,6 +1199,7 @@ emit(sprint("asm ", a, " ", b, " ", c, " ", d, " ", e, " ", @Q@N1(20, 22)))
 	})
 
 	register("tests", featDef{
+		sinks:       `@T1{}`,
 		needs:       []string{"test"},
 		tags:        []string{"tests"},
 		provNotMain: true,
@@ -1264,6 +1289,77 @@ func Example@MK() {
 		},
 		use: `
 emit(sprint("tests ", @Q@N1(argInt(args, 0, 5)).@M1()))
+`,
+	})
+}
+
+func init() {
+	// Functions marked for control-flow obfuscation. Bodies stay away from the
+	// shapes with known miscompilations (range over non-ASCII strings, named
+	// results set by a recovering defer, loop-carried swaps): this feature is
+	// about builds (C03, C06), C11 has its own body generator.
+	register("ctrlflow", featDef{
+		needs: []string{"ctrlflow"},
+		tags:  []string{"ctrlflow"},
+		prov: `
+//garble:controlflow @CFDIR
+func @N1(n int) int {
+	s := 0
+	for i := 0; i < n; i++ {
+		if i%3 == 0 {
+			s += i * @P0
+		} else if i%5 == 1 {
+			s -= 2
+		} else {
+			s++
+		}
+	}
+	return s
+}
+
+type @T1 struct{ @f1 []int }
+
+//garble:controlflow @CFDIR
+func (t *@T1) @M1(v int) string {
+	t.@f1 = append(t.@f1, v)
+	switch {
+	case v < 0:
+		return "neg"
+	case v == 0:
+		return "zero"
+	case len(t.@f1) > 3:
+		return "many" + strconv.Itoa(len(t.@f1))
+	}
+	out := ""
+	for _, x := range t.@f1 {
+		out += strconv.Itoa(x) + ","
+	}
+	return out
+}
+
+//garble:controlflow flatten_passes=1
+func @n2(words []string) map[string]int {
+	m := map[string]int{}
+	for i, w := range words {
+		if w == "" {
+			continue
+		}
+		m[strings.ToUpper(w)] += i + 1
+	}
+	return m
+}
+
+func @N3(words ...string) int {
+	total := 0
+	for _, v := range @n2(words) {
+		total += v
+	}
+	return total
+}
+`,
+		use: `
+t := &@Q@T1{}
+emit(sprint("ctrlflow ", @Q@N1(argInt(args, 0, 9)+7), " ", t.@M1(3), " ", t.@M1(0), " ", t.@M1(-1), " ", t.@M1(8), " ", @Q@N3("a", "", "b", "a")))
 `,
 	})
 }
